@@ -284,15 +284,7 @@ impl<'a> Printer<'a> {
             | Pat::Unit => "()".into(),
             | Pat::Tuple(ps) => {
                 let parts: Vec<String> = ps.iter().map(|p| self.pat(p)).collect();
-                if self.style.nest_tuples && parts.len() > 2 {
-                    let mut s = parts[parts.len() - 1].clone();
-                    for part in parts[..parts.len() - 1].iter().rev() {
-                        s = format!("({}, {})", part, s);
-                    }
-                    s
-                } else {
-                    format!("({})", parts.join(", "))
-                }
+                self.tuple_text(parts)
             }
             | Pat::Ctor(d, c, p) => {
                 let inner = self.pat(p);
@@ -310,6 +302,21 @@ impl<'a> Printer<'a> {
         }
     }
 
+    /// A tuple (value or pattern). Under `nest_tuples` each occurrence independently groups some tail of its right spine
+    /// into a nested tuple, recursively: `(a, b, c, d)`, `(a, (b, c, d))`, `(a, b, (c, d))`, `(a, (b, (c, d)))` all denote
+    /// the same product, so a value and the pattern that takes it apart usually differ in shape.
+    fn tuple_text(&mut self, parts: Vec<String>) -> String {
+        if self.style.nest_tuples && parts.len() > 2 && self.rng.chance(3, 4) {
+            let i = 1 + self.rng.below(parts.len() - 2);
+            let tail = self.tuple_text(parts[i..].to_vec());
+            let mut head = parts[..i].to_vec();
+            head.push(tail);
+            format!("({})", head.join(", "))
+        } else {
+            format!("({})", parts.join(", "))
+        }
+    }
+
     /* -------------------------------- values -------------------------------- */
 
     fn paren_if(&self, s: String, needed: bool) -> String {
@@ -320,6 +327,10 @@ impl<'a> Printer<'a> {
     pub fn val(&mut self, v: &Val, ty: &VTy, checked: bool, vis: &Vec<(String, VarId)>) -> String {
         if checked && self.site("wrong-value-at-checked-position") {
             return self.wrong_value(ty);
+        }
+        // a typed term hole: accepted by design (its type is reported), but never executable
+        if checked && self.site("term-hole") {
+            return "_".to_string();
         }
         let needs_ann = !checked && matches!(v, Val::Ctor { .. });
         let s = match v {
@@ -333,15 +344,7 @@ impl<'a> Printer<'a> {
                     | _ => vec![VTy::Unit; items.len()],
                 };
                 let parts: Vec<String> = items.iter().zip(tys.iter()).map(|(i, t)| self.val_any(i, t, checked, vis)).collect();
-                if self.style.nest_tuples && parts.len() > 2 {
-                    let mut s = parts[parts.len() - 1].clone();
-                    for part in parts[..parts.len() - 1].iter().rev() {
-                        s = format!("({}, {})", part, s);
-                    }
-                    s
-                } else {
-                    format!("({})", parts.join(", "))
-                }
+                self.tuple_text(parts)
             }
             | Val::Rec(fields) => {
                 let tys: Vec<VTy> = match ty {
@@ -457,7 +460,7 @@ impl<'a> Printer<'a> {
                 let mut vis2 = vis.clone();
                 let tail_ref: &Comp = tail;
                 self.pat_names(pat, &|x| free_in_comp(tail_ref, x), &mut vis2, &mut Vec::new());
-                let p = self.pat(pat);
+                let p = self.binder_pat(pat, vt);
                 let t = self.comp(tail, ty, checked, &vis2);
                 if annotate {
                     let tys = self.vty(vt, 5);
@@ -489,7 +492,7 @@ impl<'a> Printer<'a> {
                 let mut vis2 = vis.clone();
                 let body_ref: &Comp = body;
                 self.pat_names(pat, &|x| free_in_comp(body_ref, x), &mut vis2, &mut Vec::new());
-                let p = self.pat(pat);
+                let p = self.binder_pat(pat, pty);
                 let tys = self.vty(pty, 5);
                 let tys = if checked && self.site("wrong-parameter-annotation") {
                     (if matches!(pty, VTy::Int) { "String" } else { "Int64" }).to_string()
@@ -524,7 +527,25 @@ impl<'a> Printer<'a> {
                     s
                 };
                 let mut out = format!("match {}", s);
-                for (p, body) in arms {
+                // dropping one arm of a match that has exactly one irrefutable-payload arm per constructor is definitely
+                // non-exhaustive (biased to the constructor declared last)
+                let one_arm_per_ctor = match scrut_ty {
+                    | VTy::Data(d, _) if arms.len() >= 2 && arms.len() == self.decls.data[*d].ctors.len() => {
+                        let mut seen = std::collections::BTreeSet::new();
+                        arms.iter().all(|(p, _)| matches!(p, Pat::Ctor(pd, c, inner) if pd == d && !inner.has_ctor() && seen.insert(*c)))
+                    }
+                    | _ => false,
+                };
+                let dropped: Option<usize> = if one_arm_per_ctor && self.site("missing-match-arm") {
+                    let last_declared = arms.iter().enumerate().max_by_key(|(_, (p, _))| if let Pat::Ctor(_, c, _) = p { *c } else { 0 }).map(|(k, _)| k);
+                    if self.rng.chance(1, 2) { last_declared } else { Some(self.rng.below(arms.len())) }
+                } else {
+                    None
+                };
+                for (k, (p, body)) in arms.iter().enumerate() {
+                    if dropped == Some(k) {
+                        continue;
+                    }
                     let mut vis2 = vis.clone();
                     self.pat_names(p, &|x| free_in_comp(body, x), &mut vis2, &mut Vec::new());
                     let ps = self.pat(p);
@@ -537,7 +558,11 @@ impl<'a> Printer<'a> {
             | Comp::Comatch { decl, arms } => {
                 let d = self.decls.codata[*decl].clone();
                 let mut out = "comatch".to_string();
-                for (idx, body) in arms {
+                let dropped: Option<usize> = if !arms.is_empty() && self.site("missing-comatch-arm") { Some(self.rng.below(arms.len())) } else { None };
+                for (k, (idx, body)) in arms.iter().enumerate() {
+                    if dropped == Some(k) {
+                        continue;
+                    }
                     let b = self.comp(body, &d.dtors[*idx].1, true, vis);
                     out.push_str(&format!("\n| {} => {}", d.dtors[*idx].0, b));
                 }
@@ -655,8 +680,22 @@ impl<'a> Printer<'a> {
         }
     }
 
-    fn pat_atom(&mut self, p: &Pat, _ty: &VTy) -> String {
-        self.pat(p)
+    fn pat_atom(&mut self, p: &Pat, ty: &VTy) -> String {
+        self.binder_pat(p, ty)
+    }
+
+    /// A pattern in a binder position (let / do / fn). Injection site: the same pattern aliased with a constructor
+    /// pattern of its data type, `(p; +C(_))` — it binds the same names but no longer covers the type.
+    fn binder_pat(&mut self, p: &Pat, ty: &VTy) -> String {
+        let s = self.pat(p);
+        if let VTy::Data(d, _) = ty {
+            let n = self.decls.data[*d].ctors.len();
+            if n >= 2 && !p.has_ctor() && self.site("refutable-binder") {
+                let c = self.rng.below(n);
+                return format!("({}; {}(_))", s, self.decls.data[*d].ctors[c].0);
+            }
+        }
+        s
     }
 }
 
